@@ -89,7 +89,8 @@ Record TInv (t : tree) : Prop := {
 Definition disciplined (t : tree) (o : tree_op) : Prop :=
   match o with
   | TAppend e => forall y, In y (concat (tl (srcs t))) -> es y < es e     (* newer than everything sealed or in tables *)
-  | TIngest g items => mem_of t (v_active (latest t)) = [] /\ v_sealed (latest t) = []   (* memtables flushed first *)
+  | TIngest g items => mem_of t (v_active (latest t)) = [] /\
+                       Forall (fun id => mem_of t id = []) (v_sealed (latest t))       (* memtables flushed first *)
   | _ => True
   end.
 
@@ -215,7 +216,10 @@ Proof.
       match goal with |- Ordered (srcs ?T) => set (t' := T) end.
       unfold srcs. change (latest t') with (hd dummy_version (vers t')). change (mem_of t') with (mem_of t).
       subst t'. cbn [vers hd v_active v_sealed v_tables].
-      rewrite D1, D2. cbn. split; [intros x y []|split; [intros x y _ []|exact I]].
+      rewrite D1. split; [intros x y []|].
+      clear -D2. induction (v_sealed (latest t)) as [|id r IH]; cbn [map app].
+      * cbn. split; [intros x y _ []|exact I].
+      * inversion D2 as [|? ? E1 E2]; subst. rewrite E1. split; [intros x y []|apply IH, E2].
     + rewrite srcs_maint by exact NE. exact OR.
 Qed.
 
